@@ -1,15 +1,27 @@
 """C06 Batch and job-group completion reflect their jobs.
 
-  R1  the four tallies are incremented for the job's own group and every ancestor (join on job_group_self_and_ancestors keyed by the job's
-      group as read from the job row)
-  R2  partition: for every terminal new_state, n_completed += 1 and exactly one of n_succeeded / n_failed / n_cancelled += 1
-      (truth table over the terminal states; Success->succeeded, Failed|Error->failed, Cancelled->cancelled)
-  R3  completion test compares n_completed with n_jobs of the same entity: batch (root group row vs batches.n_jobs) and, in
-      mark_job_group_complete, every ancestor in turn (cursor over self-and-ancestors, loop left only when exhausted)
-  R4  re-opening: committing an update with jobs sets state running, time_completed NULL and n_jobs += staged, on the batch and on each
-      staged group (summing that group's staging rows of that update)
+  R1-R3 (mark_job_complete with mark_job_group_complete inlined): COMPOSITE effect on the tally table, job_groups and batches by ABSTRACT
+      execution (engines/jobgraphfacts.py): counters are symbolic, each group's gap n_jobs - n_completed is split {1, >= 2} where the code
+      compares, new_state / the job's prior state are enumerated; the rows each statement touches are decided from the normal form of
+      its conditions against `the closure rows of the job's group`; the cursor loop must be the canonical walk over all of them and its
+      body is executed once for a generic self-or-ancestor group.
+      R1  the tallies of exactly the job's group and every ancestor are incremented, once
+      R2  partition: for every terminal new_state, n_completed += 1 and exactly the matching one of n_succeeded / n_failed / n_cancelled
+      R3  a group (every self-or-ancestor) and the batch are marked complete iff their own n_completed AFTER counting this job equals their
+          own n_jobs (ordering, like with like, no early exit); only with the job's terminal transition; the job counts compared are
+          read under a lock
+  R4  re-opening (commit_batch_update, abstract execution): when the call commits an update with NU >= 1 jobs the batch row becomes
+      (running, NULL, n_jobs + NU) and every staged group (running, NULL, n_jobs + SUM of ITS staging rows of THIS update); otherwise
+      (already committed, count mismatch, empty update) nothing moves
   R5  readers: the API getters / listings take the four tallies from job_groups_n_jobs_in_complete_states joined on the entity's own
       (batch_id, job_group_id), and the record->dict functions copy them (and n_jobs) unmodified; `complete` is state == 'complete'
+  R6  who may write job_group_self_and_ancestors, and how: only the self row (g, g, 0) and the unfiltered INSERT .. SELECT of every row of
+      the parent with level + 1, for the group whose job_groups row the same function inserts, same transaction, for every non-root
+      group.  Rows assembled in Python are decided by a chain abstraction (closure of X, shifted by k, with / without X's self row) over
+      the def-use graph incl. per-request caches, or declined.  (C07 trusts the same invariant.)
+  R7  staged job counts: every job adds exactly 1 under its own group; the counts reach the group and all its ancestors through
+      INSERT .. SELECT over the closure rows and accumulate on duplicate key; a roll-up moved into Python is checked for shared mutable
+      accumulator slots (alias analysis) and otherwise declined
 Not decided: histories; callbacks' payloads (reporting only).
 """
 from __future__ import annotations
@@ -26,10 +38,11 @@ from engines.sqlast import N, text
 
 META = dict(
     category='other',
-    text='Clause-by-clause structural check of the completion bookkeeping: tally fan-out, partition of terminal states by truth table, like-with-like '
-         'completion tests over all ancestors, re-opening at commit, and reader/writer agreement for the reported counts.',
-    note='Trusted: SQL parser/evaluator. Once-only counting is C04-R2; uncommitted updates are C41.',
-    technique='static analysis: SQL AST rules over the effective routines, truth table, reader/writer key agreement in Python',
+    text='Completion bookkeeping checked by abstract execution of the effective routines over symbolic rows (tally fan-out, partition of terminal states, completion test after the increment on the '
+         'same entity over all ancestors, re-opening at commit), plus who-may-write / shape rules for the closure table and the staged job counts that these roll-ups trust, and reader/writer agreement '
+         'for the reported counts.',
+    note='Trusted: SQL parser, the abstract executor (engines/jobgraphfacts.py); MySQL applies UPDATE assignments left to right. Once-only counting is C04-R2; uncommitted updates are C41.',
+    technique='static analysis: abstract execution of extracted SQL routine bodies over symbolic values with explicit case splits, normal forms of row selections, who-may-write and alias rules in Python',
     design_ref='DESIGN.md §3 C06',
 )
 
@@ -252,11 +265,11 @@ def r4(ctx: Ctx, prog: sf.SqlProgram) -> None:
         if gotb != ('running', 'NULL') or not E.eq(b['n_jobs'], b0['n_jobs'] + jg.Lin({'NU': 1}, 0)):
             fails['reopen batch'] = (f'committing an update with NU >= 1 jobs leaves the batch row with (state, time_completed, n_jobs) = ({gotb[0]}, {gotb[1]}, {_show(b["n_jobs"])}); expected (running, NULL, NB + NU)',
                                      lines.get('batches', r.line))
-        if not E.eq(g['n_jobs'], g0['n_jobs'] + jg.Lin({'SS': 1}, 0)):
-            fails['reopen job groups'] = (f'a job group with staging rows for this update gets n_jobs = {_show(g["n_jobs"])}; expected NG + SS, SS = the sum of n_jobs over ITS staging rows of THIS update '
+        if not E.eq(g['n_jobs'], g0['n_jobs'] + syms['SS']):
+            fails['reopen job groups'] = (f'a job group with staging rows for this update gets n_jobs = {_show(g["n_jobs"])}; expected NG + one_row + other_rows = NG + the sum of n_jobs over ITS staging rows of THIS update '
                                           '(all instance collections and tokens): the group\'s job count no longer equals the number of its jobs, so it is reported complete too early or never',
                                           lines.get('job_groups', r.line))
-        elif case.sign(jg.Lin({'SS': 1}, 0)) > 0:
+        elif case.sign(syms['SS']) > 0:
             gotg = (_show(E.res(g['state'])), _show(E.res(g['time_completed'])))
             if gotg != ('running', 'NULL'):
                 fails['reopen job groups'] = (f'a job group that receives SS >= 1 new jobs is left with (state, time_completed) = {gotg}; expected (running, NULL)', lines.get('job_groups', r.line))
@@ -317,15 +330,148 @@ def r5(ctx: Ctx) -> None:
         ctx.check(got == want, 'R5', f'{bm.rel}::{fname}::copies counts', f'the API record reports {got}; expected the stored values unmodified {want}', bm.path, d.lineno)
 
 
+def r6(ctx: Ctx, prog: sf.SqlProgram) -> None:
+    """Who may write job_group_self_and_ancestors, and in which shape (engines/jobgraphfacts.py, part 2).  The tallies, the staged job
+    counts, the completion walk and the re-opening all range over `the closure rows of the job's group`: they reflect the jobs of
+    descendant groups only if that table holds exactly (g, a, distance) for a = g and every ancestor a of g."""
+    for status, key, msg, file, line in jg.check_closure_writers(prog, ctx.tier):
+        if status == 'ok':
+            ctx.ok('R6', key, msg)
+        else:
+            ctx.bad('R6', key, msg, file, line)
+
+
+def _fresh(e: ast.expr) -> bool:
+    """Does the expression create a new mutable object (as opposed to passing an existing one on)?"""
+    if isinstance(e, (ast.Dict, ast.DictComp, ast.List, ast.ListComp, ast.Set, ast.SetComp)):
+        return True
+    if isinstance(e, ast.Call):
+        n = pf.call_name(e) or ''
+        return n in ('dict', 'list', 'collections.defaultdict', 'defaultdict', 'copy.copy', 'copy.deepcopy', 'collections.Counter', 'Counter') or n.endswith('.copy')
+    return False
+
+
+def r7(ctx: Ctx, prog: sf.SqlProgram) -> None:
+    """Staged job counts: job_groups.n_jobs is re-opened with the SUM of the staging rows of the group (R4), so a group's job count
+    equals the number of its jobs only if every submitted job adds exactly 1 to the staging row of its own group AND of every ancestor.
+    Canonical writer (who-may-write / shape): `_create_jobs` counts `+= 1` once per job under the key (the job row's job_group_id,
+    inst_coll) and inserts the counts with INSERT .. SELECT over the closure rows of that group (job_group_id <- ancestor_id,
+    n_jobs <- the counted value, ON DUPLICATE KEY n_jobs = n_jobs + VALUES(n_jobs)).  A roll-up done in Python instead is checked for
+    the one defect that is decidable by alias analysis (one mutable object stored under several accumulator keys and then
+    incremented in place); otherwise it is declined."""
+    m = pf.load('batch/batch/front_end/front_end.py')
+    fn = m.func('_create_jobs')
+    cons = f'{m.rel}::_create_jobs'
+    inner = {id(x) for x in ast.walk(fn)}
+    sites = [(e, st) for e in sf.embedded_in(m) if id(e.call) in inner and e.sql_text and jg.STAGING in e.sql_text and not e.parse_error for st in e.stmts()
+             if st.kind == 'insert' and st.table.lower() == jg.STAGING]
+    others = [e for e in sf.embedded_in(m) if id(e.call) not in inner and e.sql_text and jg.STAGING in e.sql_text and not e.parse_error
+              and any(s2.kind in ('insert', 'update') and any(t.lower() == jg.STAGING for t, _ in sf.written_tables(s2)) for s2 in e.stmts())]
+    ctx.need(len(sites) == 1 and not others, f'_create_jobs: expected exactly one insert into {jg.STAGING} (found {len(sites)}, other writers in this module: {[o.qual for o in others]})')
+    e, st = sites[0]
+    efn = e.fn or fn
+    args_node = e.call.args[1] if len(e.call.args) > 1 else None
+    comp = pf.resolve_expr(efn, args_node) if isinstance(args_node, ast.Name) else args_node
+    ctx.need(isinstance(comp, ast.ListComp) and len(comp.generators) == 1 and isinstance(comp.elt, ast.Tuple), f'_create_jobs: arguments of the {jg.STAGING} insert are not a list comprehension of tuples')
+    gen = comp.generators[0]
+    ctx.need(isinstance(gen.iter, ast.Call) and isinstance(gen.iter.func, ast.Attribute) and gen.iter.func.attr == 'items' and isinstance(gen.iter.func.value, ast.Name)
+             and isinstance(gen.target, ast.Tuple) and len(gen.target.elts) == 2 and isinstance(gen.target.elts[0], ast.Tuple) and isinstance(gen.target.elts[1], ast.Name) and not gen.ifs,
+             f'_create_jobs: the rows of the {jg.STAGING} insert are not built from `for (group, inst_coll), resources in <dict>.items()`')
+    acc = gen.iter.func.value.id
+    key_names = [pf.nsrc(x) for x in gen.target.elts[0].elts]
+    val_name = gen.target.elts[1].id
+    params = sr.params_in_order(st)
+    ctx.need(len(params) == len(comp.elt.elts), f'_create_jobs: {len(params)} parameters vs {len(comp.elt.elts)} tuple elements in the {jg.STAGING} insert')
+    bind = {id(p): pf.nsrc(x) for p, x in zip(params, comp.elt.elts)}
+    if st.select is None:
+        # ---- roll-up in Python: alias analysis of the accumulator ----
+        stores = [n for n in ast.walk(fn) if isinstance(n, ast.Assign) and len(n.targets) == 1 and isinstance(n.targets[0], ast.Subscript) and isinstance(n.targets[0].value, ast.Name) and n.targets[0].value.id == acc]
+        readers = {t.id for n in ast.walk(fn) if isinstance(n, ast.Assign) and len(n.targets) == 1 and isinstance(n.targets[0], ast.Name)
+                   and ((isinstance(n.value, ast.Call) and isinstance(n.value.func, ast.Attribute) and n.value.func.attr in ('get', 'setdefault') and isinstance(n.value.func.value, ast.Name) and n.value.func.value.id == acc)
+                        or (isinstance(n.value, ast.Subscript) and isinstance(n.value.value, ast.Name) and n.value.value.id == acc)) for t in n.targets}
+        inplace = [n for n in ast.walk(fn) if isinstance(n, ast.AugAssign) and isinstance(n.target, ast.Subscript) and
+                   ((isinstance(n.target.value, ast.Name) and n.target.value.id in readers) or
+                    (isinstance(n.target.value, ast.Subscript) and isinstance(n.target.value.value, ast.Name) and n.target.value.value.id == acc))]
+        for s_ in stores:
+            v = s_.value
+            if _fresh(v) or not isinstance(v, ast.Name):
+                continue
+            loops = sr.enclosing_loops(m, s_)
+            binder = [l for l in loops if any(isinstance(x, ast.Name) and x.id == v.id for x in ast.walk(l.target))]
+            inner_loops = loops[:loops.index(binder[0])] if binder else []
+            varying = [l for l in inner_loops if {x.id for x in ast.walk(l.target) if isinstance(x, ast.Name)} & pf.names_in(s_.targets[0].slice)]
+            if binder and varying and inplace:
+                ctx.bad('R7', f'{cons}::staged counts rolled up in Python', f'`{pf.nsrc(s_)}` stores the SAME object `{v.id}` (bound once per iteration of `for {pf.nsrc(binder[0].target)} in {pf.nsrc(binder[0].iter)[:50]}`) under '
+                        f'several keys of `{acc}` - one per iteration of `for {pf.nsrc(varying[0].target)} in {pf.nsrc(varying[0].iter)[:40]}` - and `{pf.nsrc(inplace[0])}` later increments such an object in place: every slot '
+                        f'that shares it (the group itself, its ancestors not yet seen, and the entry of `{pf.nsrc(binder[0].iter)[:40]}` it came from) grows together.  E.g. a bunch whose first jobs are in a nested group and whose '
+                        'later jobs are in a sibling or in the root: the first group is staged with the jobs of the others too, job_groups.n_jobs exceeds the number of its jobs and the group is never reported complete',
+                        m.path, s_.lineno)
+                return
+        raise AnalysisError(f'_create_jobs: the insert into {jg.STAGING} no longer fans out over {CLOSURE} in SQL (INSERT .. SELECT): the staged job counts are rolled up to the ancestors in Python '
+                            f'(accumulator `{acc}`); beyond aliasing of accumulator slots, which was not found, such a roll-up is not decidable here')
+    # ---- canonical: INSERT .. SELECT over the closure rows of the counted group ----
+    sub = st.select
+    ins, dup, uvars = sr.insert_colmap(st)
+    ctx.need(sub.frm is not None and [t.lower() for t in sf.table_names(sub.frm)] == [CLOSURE] and not sub.frm.joins and not sub.group and sub.limit is None,
+             f'_create_jobs: the {jg.STAGING} insert selects from {sf.table_names(sub.frm) if sub.frm is not None else None}; expected the closure table alone')
+
+    def value_of(x: N):
+        if x.kind == 'param':
+            return jg.Sym('py:' + bind[id(x)])
+        if x.kind == 'lit':
+            return x.value
+        raise jg.Undecided(text(x))
+    sel = jg.SelBuilder(jg.full_schema(prog), lambda n: False, value_of).build(sub.frm, sub.where)
+    alias = list(sel.insts)[0]
+    pins = {c: [v.name[3:] if isinstance(v, jg.Sym) else repr(v) for v in sel.pinned(alias, c)] for c in ('batch_id', 'job_group_id', 'ancestor_id', 'level')}
+    okf = pins['job_group_id'] == [key_names[0]] and len(pins['batch_id']) == 1 and not pins['ancestor_id'] and not pins['level'] and not sel.residual \
+        and ins.get('job_group_id') is not None and ins['job_group_id'].kind == 'col' and ins['job_group_id'].parts[-1].lower() == 'ancestor_id'
+    ctx.check(okf, 'R7', f'{cons}::staged counts fan out over the closure', f'the staged counts of a (group, inst_coll) key are not inserted for the group and ALL its ancestors: job_group_id <- `{text(ins.get("job_group_id"))}`, '
+              f'closure rows selected by job_group_id = {pins["job_group_id"]} (key group `{key_names[0]}`), extra filters {[text(c) for c in sel.residual] + pins["ancestor_id"] + pins["level"]}: '
+              'ancestors that get no staging row keep n_jobs without the new jobs and are reported complete while those jobs run', m.path, e.lineno)
+    nj = ins.get('n_jobs')
+    got = bind.get(id(nj)) if nj is not None and nj.kind == 'param' else (text(nj) if nj is not None else None)
+    d = dup.get('n_jobs')
+    inc = sr.dup_increment('n_jobs', d, uvars) if d is not None else None
+    okd = inc is not None and inc[0] == 1 and inc[1].kind == 'values_fn' and inc[1].col.lower() == 'n_jobs'
+    ctx.check(got == f"{val_name}['n_jobs']" and okd, 'R7', f'{cons}::staged n_jobs is the counted value, accumulated', f'n_jobs of the staging row receives `{got}` (expected {val_name}[\'n_jobs\']) / '
+              f'ON DUPLICATE KEY UPDATE `{text(d)}` (expected n_jobs = n_jobs + VALUES(n_jobs)): several bunches of one update, or several groups under one ancestor, must add up', m.path, e.lineno)
+    # the counting site: += 1 once per job, unconditionally, under the job row's own group
+    incs = [n for n in ast.walk(fn) if isinstance(n, ast.AugAssign) and isinstance(n.op, ast.Add) and isinstance(n.target, ast.Subscript) and pf.const_str(n.target.slice) == 'n_jobs']
+    ctx.need(len(incs) == 1 and isinstance(incs[0].target.value, ast.Name), f'_create_jobs: expected one `<counts>[\'n_jobs\'] += ..` (found {len(incs)})')
+    inc_ = incs[0]
+    holder = pf.single_def(fn, inc_.target.value.id)
+    jobs_tuple = None
+    for n in pf.walk_shallow(fn):
+        if isinstance(n, ast.Call) and pf.dotted(n.func) == 'jobs_args.append' and isinstance(n.args[0], ast.Tuple):
+            jobs_tuple = n.args[0]
+    jst = [s2 for e2 in sf.embedded_in(m) if id(e2.call) in inner and not e2.parse_error for s2 in e2.stmts() if s2.kind == 'insert' and s2.table.lower() == 'jobs']
+    ctx.need(jobs_tuple is not None and len(jst) == 1 and jst[0].cols is not None and len(jst[0].cols) == len(jobs_tuple.elts), '_create_jobs: jobs insert / jobs_args tuple not found')
+    jmap = {c.lower(): pf.nsrc(x) for c, x in zip(jst[0].cols, jobs_tuple.elts)}
+    loops = sr.enclosing_loops(m, inc_)
+    ifs = sr.enclosing_ifs(m, inc_, stop=loops[0]) if loops else [('?', True)]
+    okc = isinstance(holder, ast.Subscript) and isinstance(holder.value, ast.Name) and holder.value.id == acc and isinstance(holder.slice, ast.Tuple) and \
+        pf.nsrc(holder.slice.elts[0]) == jmap.get('job_group_id') and isinstance(inc_.value, ast.Constant) and inc_.value.value == 1 and bool(loops) and not ifs
+    ctx.check(okc, 'R7', f'{cons}::every job counts once under its own group', f'`{pf.nsrc(inc_)}` with `{inc_.target.value.id} = {pf.nsrc(holder) if isinstance(holder, ast.AST) else holder}`'
+              f'{" under a condition (" + pf.nsrc(ifs[0][0].test) + ")" if ifs and ifs[0][0] != "?" else ""}: every submitted job must add exactly 1 under ({jmap.get("job_group_id")}, inst_coll) in `{acc}`, '
+              'the mapping the staging rows are built from', m.path, inc_.lineno)
+
+
 def run(ctx: Ctx) -> None:
-    ctx.explanation = 'Structural check of completion bookkeeping in mark_job_complete / mark_job_group_complete / commit_batch_update and of the API readers.'
+    ctx.explanation = 'Abstract execution of mark_job_complete / mark_job_group_complete / commit_batch_update over symbolic rows; who-may-write and shape of the closure table and of the staged job counts; API readers.'
     ctx.rule('R1', 'tallies are incremented for exactly the job\'s group and every ancestor (normal form of the selection), once', 1)
     ctx.rule('R2', 'per terminal state: completed +1 and exactly the matching category +1', 4)
     ctx.rule('R3', 'completion (abstract execution): every self-or-ancestor group, and the batch, is marked complete iff its own n_completed after counting this job equals its own n_jobs; only with the job\'s terminal transition; the job counts compared are read under a lock', 5)
     ctx.rule('R4', 'commit (abstract execution): an update with jobs re-opens the batch (+NU) and each staged group (+ the sum of its own staging rows of this update); nothing moves when the call does not commit or the update is empty', 3)
     ctx.rule('R5', 'readers take tallies from the tally table on the entity\'s own key and copy them unmodified', 4)
+    ctx.rule('R6', 'closure table: the only writers of job_group_self_and_ancestors are the self row (g, g, 0) and the unfiltered INSERT .. SELECT of every row of the parent with level + 1, '
+             'for the group whose job_groups row the same function inserts, on the same transaction, the copy for every non-root group', 5)
+    ctx.rule('R7', 'staged job counts: every job adds 1 under its own group; the counts are inserted for the group and all its ancestors (INSERT .. SELECT over the closure rows) and accumulate; '
+             'a Python roll-up must not share one mutable object between accumulator slots', 3)
     prog = sf.load_program()
     r123(ctx, prog)
     r3_locks(ctx, prog)
     r4(ctx, prog)
     r5(ctx)
+    r6(ctx, prog)
+    r7(ctx, prog)
